@@ -51,7 +51,10 @@ def g_tree(rng):
     r = rng.random()
     if r < .6:
         atoms = ['x', 'y', '-', '1', '2.5', 'dog'] + STR_ATOMS
-        node = gen.random_tree_node(rng, gen.fresh_vars(), maxdepth=rng.choice([1, 2, 4]), wf=True, atoms=atoms)
+        # roles the AMR model defines although they end in -of: the model given to load / loads / iterdecode matters
+        roles = [':ARG0', ':ARG1', ':ARG0-of', ':op1', ':op2', ':mod', ':polarity', ':quant', ':domain-of', ':ARG1-of',
+                 ':consist-of', ':prep-out-of'] if rng.random() < .5 else None
+        node = gen.random_tree_node(rng, gen.fresh_vars(), maxdepth=rng.choice([1, 2, 4]), wf=True, atoms=atoms, roles=roles)
         kind = 'gen'
     elif r < .8:
         node = c01.g_node(rng, maxdepth=rng.choice([1, 2, 3]))
@@ -297,8 +300,20 @@ def _impl_case(item):
         expected.append(cg(g))
     for sep in item['seps']:
         check_text(sep.join(texts) + item['trail'], expected, tmp, fails, f'separator {sep!r}')
-    # ---- malformed variant of the chosen text: containers must still agree (graphs before the error, error kind)
     T0 = item['sep'].join(texts) + item['trail']
+    # ---- the same under a model given by the caller: every container must hand it to the reading of every graph
+    if item['amr']:
+        from penman.models.amr import model as amr
+        exp_amr = {'graphs': [cg(layout.interpret(Tree(_node_of(node), dict((k, v) for k, v in md)), amr))
+                              for node, md in zip(item['nodes'], metas)], 'end': None}
+        for name, klass, r in containers(T0, tmp, model=amr):
+            if hung(r):
+                fails.append(('hang', f'{name} (model=AMR) does not return'))
+            elif not same(r, exp_amr) and not (klass == CR_KEEPING and same(strip_cr_keys(r), exp_amr)):
+                fails.append(('container', f'model=AMR: {name} gives {_short(r)}, the graphs interpreted under the AMR model are '
+                              f'{_short(exp_amr)}'))
+        stats.append('containers-under-amr-model')
+    # ---- malformed variant of the chosen text: containers must still agree (graphs before the error, error kind)
     if item['mut'] is not None:
         frac, ch, dele = item['mut']
         i = int(frac * len(T0))
@@ -587,8 +602,36 @@ def run(chk):
                 e = norm_impl(exp)
                 if m != e:
                     chk.mismatch(f'{kind} differs', case, e, m)
+        long_line_stream(chk, tmp)
     finally:
         shutil.rmtree(tmp, ignore_errors=True)
+
+
+def long_line_stream(chk, tmp):
+    """A line is a line however long it is (longer than any I/O buffer): a long metadata value, a long string and a
+    long one-line graph come back the same from every container.  Implementation only (no model side)."""
+    import penman
+    rng = chk.rng
+    for i in range(6 if chk.tier == 'quick' else 40):
+        n = rng.choice([1700, 2100, 3400])
+        kind = i % 3
+        if kind == 0:
+            T = '# ::snt long ' + 'wxyz ' * n + 'end\n# ::id %d\n(a / alpha :ARG0 (b / beta))\n\n(c / gamma)\n' % i
+        elif kind == 1:
+            T = '(a / alpha :name "' + 'wxyz ' * n + '" :ARG0 (b / beta))\n\n# ::id %d\n(c / gamma)\n' % i
+        else:
+            T = '(a / alpha' + ''.join(' :op%d (v%d / x%d)' % (j, j, j) for j in range(1, n // 3)) + ')\n\n(c / gamma)\n'
+        chk.count(('long-line', T[:40], len(T)))
+        cs = containers(T, tmp)
+        primary = dict((nm, r) for nm, _, r in cs)['iterdecode(T)']
+        if primary['end'] is not None or len(primary['graphs'] or []) != 2:
+            chk.fail('container', f'a text with a {len(T.splitlines()[0])}-character line decodes to {_short(primary)}', {'text_head': T[:60], 'length': len(T)})
+            continue
+        for name, klass, r in cs:
+            if not same(r, primary) and not (klass == CR_KEEPING and same(strip_cr_keys(r), primary)):
+                chk.fail('container', f'long line ({max(map(len, T.splitlines()))} characters): {name} gives {_short(r)} but iterdecode(T) '
+                         f'gives {_short(primary)}', {'text_head': T[:60], 'length': len(T)})
+    chk.stat('long-line-texts', 6 if chk.tier == 'quick' else 40)
 
 
 def replay(obj):
